@@ -70,7 +70,7 @@ Qed.
 
 Lemma handle_pre p ev st o : handle p = (ev, st, o) -> forallb pre_event ev = true.
 Proof.
-  unfold handle.
+  unfold handle, handle_from.
   destruct (run_hooks EvHookB (indexed (p_before p)) st_init) as [[evB st1] xB] eqn:HB.
   destruct (match xB with Some x => ([], st1, inr x) | None => route_and_call (p_routing p) st1 end)
     as [[evM st2] resM] eqn:HM.
@@ -140,7 +140,7 @@ Proof. apply cast_fuel_enough; unfold cast_fuel; lia. Qed.
 
 Lemma wsgi_terminates p : wsgi env eh p <> WsOutOfFuel.
 Proof.
-  unfold wsgi. destruct (handle p) as [[evH st] o].
+  unfold wsgi, wsgi_tail. destruct (handle p) as [[evH st] o].
   destruct (cast env eh cast_fuel 1 o st) as [w st' b| |] eqn:Hc.
   - destruct (if nobody (s_code st') || e_head env then (close_events w, WList []) else ([], w)) as [evC w'].
     destruct (headerlist st'); [discriminate|].
@@ -177,7 +177,7 @@ Inductive wsgi_case (p : program) : wsgi_res -> Prop :=
 
 Lemma wsgi_cases p : wsgi_case p (wsgi env eh p).
 Proof.
-  unfold wsgi. destruct (handle p) as [[evH st0] o] eqn:Hh.
+  unfold wsgi, wsgi_tail. destruct (handle p) as [[evH st0] o] eqn:Hh.
   destruct (cast env eh cast_fuel 1 o st0) as [w0 st wrote| |] eqn:Hc.
   - fold (suppress st). destruct (headerlist st) as [hl|] eqn:Hl.
     + pose proof (WC_normal p _ _ _ _ _ _ _ Hh Hc Hl) as H.
@@ -373,7 +373,7 @@ Lemma close_exactly_once p evH st0 o w0 st wrote id :
   headerlist st <> None -> closer w0 = Some id ->
   count (is_close_of id) (all_events (wsgi env eh p)) = 1.
 Proof.
-  intros Hh Hc Hl Hid. unfold wsgi. rewrite Hh, Hc.
+  intros Hh Hc Hl Hid. unfold wsgi, wsgi_tail. rewrite Hh, Hc.
   destruct (headerlist st) as [hl|]; [clear Hl|congruence].
   fold (suppress st). destruct (suppress st); cbn [all_events]; rewrite !count_app;
     rewrite (pre_not (is_close_of id) evH (pre_no_close_of id) (handle_pre _ _ _ _ Hh)).
@@ -608,7 +608,7 @@ Proof. intros H. apply Forall_forall. intros x Hx. rewrite Forall_forall in H. a
 
 Lemma handle_ok p ev st o : wf_program p -> handle p = (ev, st, o) -> st_ok st /\ wf_out o.
 Proof.
-  intros [Hb [Ha Hr]]. unfold handle.
+  intros [Hb [Ha Hr]]. unfold handle, handle_from.
   destruct (run_hooks EvHookB (indexed (p_before p)) st_init) as [[evB st1] xB] eqn:HB.
   destruct (run_hooks_ok _ _ _ _ _ _ (indexed_ok _ _ Hb) st_ok_init HB) as [S1 X1].
   destruct (match xB with Some x => ([], st1, inr x) | None => route_and_call (p_routing p) st1 end)
